@@ -14,8 +14,8 @@ import (
 // call, and injects read / write faults.
 type Conn struct {
 	rtimeout bool // read faults are of the timeout kind
-	mu   sync.Mutex
-	cond *sync.Cond
+	mu       sync.Mutex
+	cond     *sync.Cond
 
 	segs      [][]byte
 	cur       []byte
